@@ -92,18 +92,64 @@ class GenRule:
                 occ[c] = occ.get(c, 0) + 1
         name = {c: VARS[i] for i, c in enumerate(classes)}
 
+        # Surface syntax: every third rule is rendered with nested terms: a function atom whose result is used as an argument of
+        # another atom (and nowhere else by name) is written inline, `pa(f(x))` for {f(x, y), pa(y)}. The flat rule is the same.
+        flat_premise = [(a, list(ca)) for a, ca in zip(self.atoms, cls_atoms)]
+        inline = {}     # result class -> index of the function atom written inline
+        self.nested = False
+        if self.idx % 3 == 1:
+            for i, (a, ca) in enumerate(flat_premise):
+                if SYMS[a][0] != "func":
+                    continue
+                r = ca[-1]
+                if r in concl_uses or (eq and r in eq) or r in ca[:-1] or r in inline:
+                    continue
+                if sum(1 for b, cb in flat_premise if SYMS[b][0] == "func" and cb[-1] == r) != 1:
+                    continue
+                arg_occ = sum(cb[:(-1 if SYMS[b][0] == "func" else None)].count(r) for j, (b, cb) in enumerate(flat_premise) if j != i)
+                if arg_occ == 0:
+                    continue
+                inline[r] = i
+            # no cycles: drop an inline candidate whose arguments (transitively) contain its own result
+
+            def reaches(r, target, seen):
+                if r in seen:
+                    return False
+                seen.add(r)
+                if r not in inline:
+                    return False
+                args = flat_premise[inline[r]][1][:-1]
+                return target in args or any(reaches(x, target, seen) for x in args)
+            for r in list(inline):
+                if reaches(r, r, set()):
+                    del inline[r]
+            # a term written k times needs named arguments
+            for r, i in inline.items():
+                k = sum(cb[:(-1 if SYMS[b][0] == "func" else None)].count(r) for j, (b, cb) in enumerate(flat_premise) if j != i)
+                if k >= 2:
+                    for c in flat_premise[i][1][:-1]:
+                        occ[c] = occ.get(c, 0) + (k - 1)
+            self.nested = bool(inline)
+
         def v(c):
             return name[c] if occ[c] > 1 else "_"
+
+        def term(c, depth=0):
+            """argument position: the variable, or the inlined function term"""
+            if c in inline and depth < 6:
+                a, ca = flat_premise[inline[c]]
+                return "%s(%s)" % (a, ", ".join(term(x, depth + 1) for x in ca[:-1]))
+            return v(c)
         lines = []
-        flat_premise = []   # (rel, [class ids])
-        for a, ca in zip(self.atoms, cls_atoms):
+        for i, (a, ca) in enumerate(flat_premise):
             kindv, n = SYMS[a]
-            flat_premise.append((a, list(ca)))
             if kindv == "pred":
-                lines.append("if %s(%s);" % (a, ", ".join(v(c) for c in ca)))
+                lines.append("if %s(%s);" % (a, ", ".join(term(c) for c in ca)))
             else:
-                args = ", ".join(v(c) for c in ca[:-1])
                 res = ca[-1]
+                if inline.get(res) == i:
+                    continue
+                args = ", ".join(term(c) for c in ca[:-1])
                 if occ[res] > 1:
                     lines.append("if %s = %s(%s);" % (name[res], a, args))
                 else:
@@ -120,7 +166,7 @@ class GenRule:
 
     def to_json(self):
         return {"name": self.name, "atoms": list(self.atoms), "assignment": list(self.assignment), "concl_kind": self.concl_kind,
-                "with_eq": self.with_eq, "stages": self.stages, "text": self.text}
+                "with_eq": self.with_eq, "nested": self.nested, "stages": self.stages, "text": self.text}
 
 
 class _UF:
